@@ -11,3 +11,4 @@ import KdVerif.Props.C10
 import KdVerif.Props.C17
 import KdVerif.Props.C16
 import KdVerif.Props.C11
+import KdVerif.Props.C18
